@@ -44,6 +44,16 @@ def run_history(ctx, cls, mod, its, blk0, ops):
                 fails.append(("observer called before the new block was installed", i, obid))
             if sender.value != new:
                 fails.append(("observer told a value the installed block does not decode to", i, obid))
+            # ... and EVERY item reads the new block from inside the callback, not only the sender (a device reads its neighbours there)
+            for it2 in its:
+                a2 = st.accessors[it2["tag"]]
+                try:
+                    live, ref = a2.raw_value, a2._get_raw_value(cur["expected_block"])
+                except Exception:  # noqa
+                    continue
+                if live != ref:
+                    fails.append(("inside the observer of %s, item %s still reads %r: the installed block says %r" % (its[i]["tag"], it2["tag"], live, ref), i, obid))
+                    break
         return ob
 
     class Client:
